@@ -6,7 +6,7 @@ using namespace gx;
 static rc::Gen<Case> case_gen() {
     return rc::gen::exec([] {
         Case c;
-        int64_t mtu = *bnd({576, 576, 577, 1500, 1500, 1514, 9000, 9216}, 576, 9216, 4, 1);
+        int64_t mtu = *bnd({576, 576, 577, 1500, 1500, 1514, 9000, 9216, 1492, 1280, 578, 579, 580, 581}, 576, 9216, 4, 1);   // every residue of (MTU-36) mod 6, (MTU-34) mod 14 and mod 20 among the cheap ones
         int64_t own = 0x020000000000LL | *range<int64_t>(1, 0xFFFFFF);
         c.cfg = {mtu, *pick({0, 0, 1}), own, *pick({0, 0, 0, 1})};
         c.blobs = {*bytes(0, 40), *bytes(0, 40), *bytes(0, 900), *bytes(0, 80), *bytes(0, 64)};
